@@ -11,12 +11,15 @@ CHECKS = {
         text="Runtime monitoring of totality: tens of thousands (quick) to a million (thorough) generated hostile "
              "inputs are driven through every stage of the real crates inside a supervised probe process; the "
              "monitors are panic capture, process-death attribution, a hook-driven step clock and a CPU clock, "
-             "plus the real binary's exit status on raw byte files. Exploration is the right level: absence of "
+             "plus the real binary's exit status and CPU time on raw byte files and on every kind of flat-and-long input up to "
+             "64 KiB (sums of thousands of terms, thousands of statements, branches, labels, values, arguments, one long "
+             "string or comment, thousands of invalid characters). Exploration is the right level: absence of "
              "crashes is a statement over all inputs that can only be sampled, with the generators aimed at the "
              "input-reachable casts, unwraps and arithmetic found by reading.",
         note="Holds only for the inputs generated; budgets are 3e8 parser steps / 20 s CPU per case; the probe is "
              "built at opt-level 1 with overflow checks and debug assertions (release builds wrap instead of "
-             "panicking - the value oracles of C09 cover that side). No unsafe code in ironplc; Miri/ASan runs "
+             "panicking - the value oracles of C09 cover that side); its case threads get the stack ironplcc gives its worker "
+             "thread (1 GiB since 88d4208). No unsafe code in ironplc; Miri/ASan runs "
              "(thorough tier) only reach dependencies.",
         technique="panic/abort/step-clock monitors over generated hostile inputs (probe + CLI exit status)"),
 }
@@ -32,7 +35,7 @@ CHECKS["C01"] = dict(
     note="Normal form deliberately ignores representation choices (DESIGN.md App. A): LateBound vs Variable for a "
          "bare name, which initialiser variant carries a type reference, parentheses, identifier case, spans. "
          "Productions the parser does not implement (IL, VAR_TEMP, several RESOURCEs) are outside the subset and not "
-         "generated; whitespace is only varied where the canonical spelling has whitespace. Genuine defects that "
+         "generated; whitespace is varied where the canonical spelling has whitespace, and left out next to punctuation. Genuine defects that "
          "are recorded rather than fixed are avoided in 2/3 of the workload (clean subset) and matched by signature "
          "in the rest.",
     technique="generated programs + independent expected-tree oracle (reference precedence parser), monitored at parse_program")
@@ -86,9 +89,11 @@ CHECKS["C08"] = dict(
     text="Metamorphic monitor at parse_program / analyze: a generated program in canonical spelling and re-spellings of "
          "the same token list along one dimension at a time (keyword case, textual-keyword case, identifier case per "
          "occurrence, trivia incl. CRLF/FF/multi-line/star-ended comments at every soft boundary, optional ';' after "
-         "END_IF) and all together must give equal normal forms and the same verdict; END_IF chains of depth 1-4 with "
+         "END_IF) and all together must give equal normal forms, equal raw dumps (names case-folded, positions blanked, nothing "
+         "else normalised: both come from the same parser) and the same verdict; END_IF chains of depth 1-4 with "
          "every subset of semicolons are enumerated.",
-    note="Trivia is inserted only where the canonical spelling has white space; identifiers are compared lower-cased "
+    note="Trivia is inserted where the canonical spelling has white space, and white space next to punctuation is also "
+         "left out altogether ('x:=-2'); identifiers are compared lower-cased "
          "(IEC identifiers are case-insensitive).",
     technique="metamorphic re-spelling monitor over generated programs")
 CHECKS["C09"] = dict(
@@ -104,8 +109,8 @@ CHECKS["C09"] = dict(
 CHECKS["C10"] = dict(
     category="exploration", design_ref="DESIGN.md 4 (C10), 7",
     text="Every generated source the parser accepts and the repository's fixtures are rendered, re-parsed, compared by "
-         "normal form and rendered again (fixed point). The pinned renderer has 23 recorded defects that cannot be "
-         "repaired without editing the stored expected outputs of the existing tests; 2/3 of the workload avoids the "
+         "normal form and rendered again (fixed point). Fifteen renderer defects found this way are repaired; eleven remain "
+         "recorded because a repair would change the stored expected outputs of the existing renderer tests; 2/3 of the workload avoids the "
          "constructs involved (any failure there is a violation), the rest must fail only with a recorded signature.",
     note="Equality is judged on the normal form; the known-findings file lists, per defect, the generator atoms and the "
          "fixtures it affects.",
@@ -118,7 +123,7 @@ CHECKS["C05"] = dict(
          "file id of every identifier reached by a visitor; range, file, boundary and 'covers the spelling the message "
          "is about' for every label of the planted rule faults (the planter registers the spellings); CLI line:col "
          "against the reference.",
-    note="Column unit is not fixed by the property: bytes, characters or UTF-16 units are accepted; form feed as a line "
+    note="Columns are counted in characters (the unit of the positions the CLI prints); a form feed "
          "separates tokens but does not end a line; OSCAT description bodies are exempt from text equality (blanked "
          "by design) but not from tiling. The CLI stage also compares the texts the coloured codespan output "
          "underlines with the label texts seen in process (multi-file diagnostics, twins, repeated values).",
@@ -131,9 +136,12 @@ CHECKS["C11"] = dict(
          "`ironplcc check` reports for a directory with the same files. Histories over {didOpen, didChange} x 2 URIs x 9 "
          "texts are enumerated (all of length 4 in the thorough tier, a seeded sample of 1 600 of length 3 in the quick "
          "tier), with four version-numbering policies and five URI styles (percent-encoded blanks / non-ASCII, names "
-         "differing only in case), plus random and fixed histories with a third, unrelated document.",
+         "differing only in case), plus random and fixed histories with a third, unrelated document, sessions whose documents' "
+         "directory is the workspace folder (named plainly or through a symbolic link; what it holds when the server starts "
+         "is part of the project) and edits that only add or remove white space at the end of a document.",
     note="Fresh-server and CLI references are themselves executions of the system under test (differential / "
-         "metamorphic oracle); a state whose reference is unstable is reported. P0030 carries no file and is ignored.",
+         "metamorphic oracle); a state whose reference is unstable is reported. For `check`, every file section drawn for a "
+         "diagnostic counts (a diagnostic with labels in two documents is published to both). P0030 carries no file and is ignored.",
     technique="JSON-RPC trace monitor with fresh-server and CLI differential references over enumerated histories")
 CHECKS["C12"] = dict(
     category="exploration", design_ref="DESIGN.md 4 (C12)",
@@ -154,13 +162,13 @@ CHECKS["C13"] = dict(
          "checked against the contract "
          "exit 0 <=> OK <=> no coded diagnostic; directory vs file list equivalence; echo / tokenize exit status "
          "against the in-process parse / tokenize of each file.",
-    note="Sets contain at most one faulty file so that the diagnostics compared between `check dir` and `check files` "
-         "are not subject to the recorded 'first error only' instability (C11).",
+    note="Sets contain at most one faulty file: with several, every rule still reports its first problem only, and which "
+         "one that is depends on the order the files are analysed in (sorted by name since d679530).",
     technique="exit-status / stdout / stderr contract monitor on the real binary")
 CHECKS["C14"] = dict(
     category="exploration", design_ref="DESIGN.md 4 (C14)",
     text="Metamorphic monitor across 5 encodings of the same generated text (non-ASCII in comments before code and in "
-         "strings, LF/CRLF, non-ASCII tails, OSCAT blocks) on `check` and `tokenize`, alone, in sets of mixed encodings "
+         "strings, LF/CRLF, non-ASCII tails, OSCAT blocks, banners of characters from the 0x80-0x9F block of Windows-1252) on `check` and `tokenize`, alone, in sets of mixed encodings "
          "and as the library file of an LSP workspace folder; exhaustive byte sweep (256 values x 4 sites x 2 commands) and "
          "random binary files must give a verdict whose positions lie inside the reference-decoded text and never a "
          "crash.",
@@ -170,7 +178,8 @@ CHECKS["C14"] = dict(
 CHECKS["C15"] = dict(
     category="exploration", design_ref="DESIGN.md 4 (C15)",
     text="The semanticTokens/full answers of the real server for generated documents (random spellings, comments before "
-         "tokens, multi-line / non-ASCII comments, CRLF, after random edit histories, planted invalid characters) are "
+         "tokens, multi-line / non-ASCII comments, CRLF, after random edit histories, planted invalid characters; documents "
+         "known only from the workspace folder, next to entries that cannot be read) are "
          "decoded with the LSP relative encoding and compared with an independent lexical classifier written from "
          "Annex B.1: strictly increasing, each range exactly one lexeme, legend entry allowed for the class, every "
          "identifier and comment present, null for invalid text.",
